@@ -58,7 +58,7 @@ CHECKS = {
          "DESIGN.md §4 C11"),
  "C12": ("exploration",
          "runtime statistical monitor (Bernstein 1e-10 per category; p=0/p=1 exact; Hoeffding for mean child length) over 285 configurations of rates, lengths and generators",
-         "Per-gene flip frequency and adjacent-pair joint frequency for WithRate / WithOneOverLength; UMAD (through all three constructors, the empty-genome rate set far from both other rates) per-position deletion, aggregated additions a(1-d), the full joint law on one-gene parents, empty-parent additions for all three constructors, mean child length incl. d=a/(1+a); uniform crossover 1/2 and pair independence on four flavours; Bitstring::random*, BoolGenerator; GeneGenerator through all six public constructors: close frequency (explicit and default 1/(n+1), n=1..31) and instruction frequencies (uniform and skewed, direct and via a Plushy collection generator); lengths 100/200/1000 for bit-flip, random bitstrings and uniform crossover; the 1/length rate also on 3000..70000 genes (aggregated). 2e6 (quick) / 4e7 (thorough) samples per configuration before length scaling. BoolGenerator is also reconfigured through its public probability field after construction and after a draw. Default close probability also on instruction sets of 200000 and 2^20-1 instructions.",
+         "Per-gene flip frequency and adjacent-pair joint frequency for WithRate / WithOneOverLength; UMAD (through all three constructors, the empty-genome rate set far from both other rates) per-position deletion, aggregated additions a(1-d), the full joint law on one-gene parents, empty-parent additions for all three constructors, mean child length incl. d=a/(1+a); uniform crossover 1/2 and pair independence on four flavours; Bitstring::random*, BoolGenerator; GeneGenerator through all six public constructors: close frequency (explicit and default 1/(n+1), n=1..31) and instruction frequencies (uniform and skewed, direct and via a Plushy collection generator); lengths 100/200/1000 for bit-flip, random bitstrings and uniform crossover; the 1/length rate also on 3000..70000 genes (aggregated). 2e6 (quick) / 4e7 (thorough) samples per configuration before length scaling. BoolGenerator is also reconfigured through its public probability field after construction and after a draw. Default close probability also on instruction sets of 200000 and 2^20-1 instructions. Flip rates down to 2^-25, 1e-20 and f32::MIN_POSITIVE.",
          "A bias below the stated resolution is invisible.",
          "DESIGN.md §4 C12"),
  "C13": ("exploration",
